@@ -99,7 +99,10 @@ func genC04Plain(seed uint64, run int, tier string) *Plan {
 	key := func() any { return int32(r.IntN(keys)) }
 	single := func() Op {
 		k := key()
-		switch r.IntN(12) {
+		switch r.IntN(13) {
+		case 12:
+			// "queue pop": a sorted find-one-and-update whose own update takes the document out of the filter
+			return Op{K: "findOneAndUpdate", DB: "db", C: "k", F: jd(bson.D{{Key: "taken", Value: bson.D{{Key: "$exists", Value: false}}}}), S: jd(bson.D{{Key: "_id", Value: pick(r, int32(1), int32(-1))}}), U: jd(bson.D{{Key: "$set", Value: bson.D{{Key: "taken", Value: nextTag()}}}}), After: r.IntN(2) == 0}
 		case 0, 1:
 			return Op{K: "updateOne", DB: "db", C: "k", F: jd(bson.D{{Key: "_id", Value: k}}), U: jd(bson.D{{Key: "$inc", Value: bson.D{{Key: "n", Value: int32(1)}}}}), Upsert: true}
 		case 2:
